@@ -58,14 +58,34 @@ Inductive cerror :=
 
 Definition cres := outcome cerror.
 
+(** the literal order used for the within-word automaton with pool index [i] *)
+Definition ord_for (os : list (N * list (string * string))) (i : N) : list (string * string) :=
+  match assocN i os with Some o => o | None => [] end.
+
+(** every literal order is valid: the main one, every listed one ([Tables.valid_orders]), and the one
+    used for every within-word automaton of the pool (a missing entry means the empty order) *)
+Definition orders_ok (c : cdfa) (om : list (string * string)) (os : list (N * list (string * string))) : bool :=
+  valid_orders c om os
+  && forallb (fun isd => valid_literal_order (snd isd) (ord_for os (fst isd))) (number_from 0 (c_subs c)).
+
+(** [Tables.all_tables Bash] then [EmitBash.script], behind the validation of the oracles *)
 Definition emit_bash (o : oracles) (v : valid_grammar) (c : cdfa) : cres string :=
-  match script_of_dfa (v_command v) (o_sig o) c (o_main_lits o) (o_sub_lits o) (o_groups o) with
-  | Ok (s, true) => Ok s
-  | Ok (_, false) => Err CBadOracle
-  | Err _ => Panic "tables/emit: impossible error"
-  | Panic site => Panic site
-  | OutOfFuel => OutOfFuel
-  end.
+  if orders_ok c (o_main_lits o) (o_sub_lits o) then
+    match all_tables Bash c (o_main_lits o) (o_sub_lits o) with
+    | Ok (nd, a) =>
+        if valid_grouping a (o_groups o) then
+          match script (v_command v) (o_sig o) (d_start (c_main c)) nd a (o_groups o) with
+          | Ok s => Ok s
+          | Err _ => Panic "emit: impossible error"
+          | Panic site => Panic site
+          | OutOfFuel => OutOfFuel
+          end
+        else Err CBadOracle
+    | Err _ => Panic "tables: impossible error"
+    | Panic site => Panic site
+    | OutOfFuel => OutOfFuel
+    end
+  else Err CBadOracle.
 
 Definition compile_bash (o : oracles) (builtins : shell -> list (string * string)) (text : string)
   : cres string :=
